@@ -355,7 +355,10 @@ class Inliner:
         for st in out:
             ast.copy_location(st, call)
             for n in ast.walk(st):
-                n._synthetic = True
+                if hasattr(n, "lineno") and not hasattr(n, "_src_lineno"):
+                    n._src_lineno = n.lineno          # where the text really is (comments above it still describe it)
+                elif not hasattr(n, "lineno"):
+                    n._synthetic = True
                 if not hasattr(n, "lineno") or True:
                     n.lineno = getattr(call, "lineno", 1)
                     n.end_lineno = getattr(call, "end_lineno", n.lineno)
